@@ -298,6 +298,7 @@ class LMC(SVGP):
 FAMILIES = {c.name: c for c in (Default, DefaultIterative, Batch, BatchNaN, MTKron, Hadamard, SKI, SKIDyn, SGPR, SVGP, SVGPU, SVGPMF, SVGPBD, LMC)}
 
 EXACT_OPS = ["pred", "pred_fpv", "pred_nodetach", "pred_skipvar", "pred_eager", "pred_batch", "train_step", "set_data", "set_targets", "set_targets_strict", "load_sd", "load_sd_same", "fantasy", "prior", "backward", "train_eval"]
+# (ops added after the first build are listed in the checks that use them: c03.EXT_OPS)
 VAR_OPS = ["pred", "pred_batch", "pred_skipvar", "pred_eager", "train_step", "load_sd", "load_sd_same", "prior", "backward", "train_eval"]
 
 
@@ -425,6 +426,14 @@ def apply_op(fam, m, op, state):
             cur_n = m.train_targets.shape[-1]
             newy = f.y3 if cur_n == f.n else torch.cos(m.train_inputs[0].sum(-1) * 1.3)
         m.set_train_data(targets=newy, strict=False)
+    elif op == "set_data_refused":
+        # a strict set_train_data that the model refuses (targets of another shape next to acceptable inputs): the caller
+        # catches the error and goes on - the model is either unchanged or consistently changed, never half of each
+        cur_x = m.train_inputs[0]
+        try:
+            m.set_train_data(inputs=torch.sin(cur_x * 1.3) + 0.2 * cur_x, targets=torch.cat([m.train_targets, m.train_targets[..., :1]], -1), strict=True)
+        except RuntimeError:
+            pass
     elif op == "set_targets_strict":
         # targets only, default strict=True (same shape as the current targets)
         cur = m.train_targets
